@@ -83,6 +83,20 @@ fn replay(file: &str) -> i32 {
     match engine {
         "e1" | "e1-fault" => {
             let argv = vec!["worker".to_string(), format!("{engine}-replay"), file.to_string()];
+            if v.pointer("/violation/invariant").and_then(|x| x.as_str()) == Some("I-crash") {
+                // the recorded violation is "the process dies": reproduced iff it dies again
+                let res: Vec<Result<serde_json::Value, simcore::pool::WorkerFailure>> =
+                    simcore::pool::run_workers_detailed(vec![argv], true);
+                let died = matches!(&res[0], Err(f) if f.signal.is_some());
+                println!("{{\"reproduced\": {died}}}");
+                if died {
+                    let p = v.get("property").and_then(|p| p.as_str()).unwrap_or("?");
+                    println!("VIOLATION property={p} replay={file}");
+                    return 1;
+                }
+                println!("NOT REPRODUCED");
+                return 0;
+            }
             let out: Result<Vec<serde_json::Value>, _> = simcore::pool::run_workers(vec![argv], true);
             match out {
                 Ok(r) => {
